@@ -70,6 +70,8 @@ type FV struct {
 	paths  int
 	unmodelled map[string]bool
 	inlined    map[string]bool
+	cntNames   []string
+	prevUsed   bool
 	calleesByContract map[string]bool
 	assumptions map[string]bool
 	implUsed map[string]types.Type // interface name -> type
